@@ -52,8 +52,11 @@ def run(ctx):
             ('v6hi', dict(arch_version=6, memory_list=HI_MEM)), ('v7hi', dict(arch_version=7, memory_list=HI_MEM))]
     extra = C.parallel(pushpop_task, [dict(name='pushpop-%d' % i, seed=ctx.seed + 700 + i, n=150 if q else 4000, modes='all',
                                            cfg=dict(arch_version=6 + i % 2)) for i in range(4)])
+    def tags(g, e, v):
+        return {'arch': g.cfg['arch_version'], 'enc': v['path'].split(':')[-1], 'gen': g.meta.get(e['id'], {}).get('gen'),
+                'sp_aligned': C.pre_sp(g, e) % 4 == 0}
     F.run_family(ctx, 'lsm', n, {'endian': True, 'align_ctl': True, 'data_ptrs': True, 'hi': True}, F.exact_filter,
-                 configs=cfgs, extra_groups=extra)
+                 configs=cfgs, extra_groups=extra, tags_of=tags)
     ctx.extra['rule'] = ('MC_LSM: lists x LDM/STM x IA/IB/DA/DB x W x base placement incl. wrap, PUSH;POP identity (quick: '
                          'structured lists, thorough: all 2^16); conformance: random and structured register lists for '
                          'ARM LDM/STM (4 modes), 16-bit PUSH/POP/LDM/STM, 32-bit LDM/STM, PUSH;POP programs')
